@@ -94,10 +94,15 @@ inline void add_bytes(bytes& acc, bytes const& x, collective_sig const& s)
     }
 }
 
+// a broadcast is recorded as a collective with op = -(root + 2): its "reduction" is the root's contribution whatever the order
+inline bool is_bcast(collective_sig const& s) { return s.op <= -2; }
+inline int bcast_root(collective_sig const& s) { return -s.op - 2; }
+
 // left fold over the ranks in the given order
 inline bytes reduce_fold(std::vector<bytes> const& contrib, collective_sig const& s,
     std::vector<int> const& order)
 {
+    if (is_bcast(s)) return contrib.at(bcast_root(s));
     bytes acc = contrib[order[0]];
     for (std::size_t i = 1; i < order.size(); ++i) add_bytes(acc, contrib[order[i]], s);
     return acc;
@@ -106,6 +111,7 @@ inline bytes reduce_fold(std::vector<bytes> const& contrib, collective_sig const
 // balanced binary tree over rank order (recursive halving)
 inline bytes reduce_tree(std::vector<bytes> const& contrib, collective_sig const& s, int lo, int hi)
 {
+    if (is_bcast(s)) return contrib.at(bcast_root(s));
     if (hi - lo == 1) return contrib[lo];
     int const mid = lo + (hi - lo) / 2;
     bytes a = reduce_tree(contrib, s, lo, mid);
@@ -279,6 +285,31 @@ public:
         throw need_collective{};
     }
 
+    // A broadcast: every rank of the communicator must reach it at the same place with the same count, type and root; all
+    // of them (the root too) leave with the root's bytes.
+    int bcast(void* buffer, int count, int datatype, int root, MPI_Comm on = 0)
+    {
+        if (subgroup && on == MPI_COMM_WORLD)
+            throw collective_mismatch{"broadcast on MPI_COMM_WORLD although the integrator was given a sub-communicator (hang)"};
+        collective_sig sig; sig.count = count; sig.datatype = datatype; sig.op = -(root + 2);
+        std::size_t const n = std::size_t(count) * mpi_type_size(datatype);
+        if (mpi_type_size(datatype) == 0 || root < 0 || root >= world_)
+            throw collective_mismatch{"unsupported datatype/root in MPI_Bcast: " + sig.str()};
+        log_.push_back(sig);
+        if (cursor_ < results_->size())
+        {
+            bytes const& res = (*results_)[cursor_];
+            if (res.size() != n)
+                throw collective_mismatch{"collective " + std::to_string(cursor_) + " is a broadcast of " + std::to_string(n) + " bytes here but " + std::to_string(res.size()) + " bytes on the other ranks"};
+            std::memcpy(buffer, res.data(), n);
+            ++cursor_;
+            return 0;
+        }
+        pending_.assign(static_cast<unsigned char const*>(buffer), static_cast<unsigned char const*>(buffer) + n);
+        pending_sig_ = sig;
+        throw need_collective{};
+    }
+
     // A barrier is a collective of its own kind (datatype -1, one marker byte): every rank of the communicator must reach it
     // at the same place in the sequence of collectives.
     int barrier(MPI_Comm on = 0)
@@ -330,7 +361,7 @@ inline std::vector<bytes> all_reductions(std::vector<bytes> const& contrib, coll
     std::vector<int> order(p);
     std::iota(order.begin(), order.end(), 0);
     orders = 0;
-    if (!mpi_type_is_fp(s.datatype) || p == 1)
+    if (!mpi_type_is_fp(s.datatype) || p == 1 || is_bcast(s))
     {
         add(reduce_fold(contrib, s, order));
         orders = 1;
@@ -375,6 +406,12 @@ inline int MPI_Allreduce(void const* sendbuf, void* recvbuf, int count, MPI_Data
         return 0;
     }
     return vf::current_env()->allreduce(sendbuf, recvbuf, count, datatype, op, comm);
+}
+
+inline int MPI_Bcast(void* buffer, int count, MPI_Datatype datatype, int root, MPI_Comm comm)
+{
+    if (!vf::current_env()) return 0;
+    return vf::current_env()->bcast(buffer, count, datatype, root, comm);
 }
 
 inline int MPI_Barrier(MPI_Comm comm)
